@@ -139,7 +139,8 @@ public:
   }
   std::string funcKey(const FunctionDecl *FD) {
     std::string S = qname(FD);
-    if (Ctx.getLangOpts().CPlusPlus) {
+    // functions with C linkage keep the plain name so that C and C++ units agree on the key
+    if (Ctx.getLangOpts().CPlusPlus && !FD->isExternC()) {
       S += "(";
       bool First = true;
       for (auto *P : FD->parameters()) {
